@@ -19,7 +19,7 @@ KINDS = {
 }
 WS_KINDS = {'sp', 'sp2', 'tab', 'nl', 'nl_ind', 'blank', 'blank3'}
 LINE_LEVEL = {'eol_c', 'own_c', 'own_c_blank', 'own_b', 'ml_b', 'doc_b', 'hash_nospace', 'eol_c_blank', 'eol_b_blank', 'own_c_two', 'blank_own_c', 'own_c_blank_after', 'tight_eol_c'}       # comment alone on a line or at the end of one
-CONTEXTS = {'top': lambda e: e, 'bindval': lambda e: "{\n  v = " + e.replace("\n", "\n  ") + ";\n}", 'listitem': lambda e: "[\n  " + e.replace("\n", "\n  ") + "\n]"}
+CONTEXTS = {'lambda_body': lambda e: 'x:\n' + e, 'top': lambda e: e, 'bindval': lambda e: "{\n  v = " + e.replace("\n", "\n  ") + ";\n}", 'listitem': lambda e: "[\n  " + e.replace("\n", "\n  ") + "\n]"}
 NOT_LIST_ITEMS = ('call', 'with', 'assert', 'if', 'lambda_id', 'lambda_formals', 'lambda_formals_multi', 'lambda_at', 'lambda_at_pre', 'let', 'binary', 'chain', 'update', 'has_attr', 'not', 'neg', 'select_or', 'call_set')
 # ---- nesting family: every sequence of up to three wrappers around a leaf, each wrapper with names of its own depth ----
 WRAP = {
@@ -29,6 +29,13 @@ WRAP = {
  'if': lambda i, e: 'if b%d then %s else %d' % (i, e, i), 'call': lambda i, e: 'f%d (%s)' % (i, e), 'binop': lambda i, e: '(%s) + %d' % (e, i),
 }
 
+ATOMS = [
+ '""', '"a"', '"say \\"hi\\""', '"\\""', '"\\"lead"', '"tail\\\\"', '"\\\\"', '"\\n\\t\\r"', '"$"', '"$$"', '"\\${x}"', '"$${x}"', '"a${x}b"', '"${x}"', '"${"}"}"', '"${a + "b"}"', '"é→"',
+ "''''", "''a''", "''\n  multi\n  line\n''", "'''' ''", "''''\\n''", "''$''", "''$${x}''", "''${x}''", "''a'''b''", "''  ''", "''\n''",
+ '0', '00', '007', '1.5', '.5', '1.', '1e3', '1.0e-3', '123456789012345678901234567890',
+ './p', '../p/q', '/abs/p', '~/p', './p/${x}/q', '<nixpkgs>', '<nixpkgs/lib>', 'http://example.org/a?b=c', "a'", "_", "a-b", "a.b-c", 'x.y."z w"', 'x."a.b"', 'x.${y}', 'x."${y}"',
+ 'true', 'false', 'null', 'builtins.x', 'or', 'a or b', '-1', '!true', '[ -1 ]' if False else '(-1)', '[ (-1) ]', '{ "a b" = 1; }', '{ "${x}" = 1; }', '{ ${x} = 1; }', '{ a."b c".d = 1; }',
+]
 def iter_cells():
     """yields (site, text, kind_name): site = [construct, slot, kind, context]"""
     for cname, expr in CONSTRUCTS.items():
@@ -46,6 +53,11 @@ def iter_cells():
                     lp = lex(p)
                     if lp is None or code(lp[0]) != code(toks): continue
                     yield [cname, '%s|%s' % (toks[slot - 1][2], toks[slot][2]), kname, ctx], p, lp
+    for a in ATOMS:
+        for ctx, wrap in CONTEXTS.items():
+            p = wrap(a) + '\n'; lp = lex(p)
+            if lp is None: continue
+            yield ['atom', a[:40], 'canonical', ctx], p, lp
     for depth in (2, 3):
         for seq in itertools.product(sorted(WRAP), repeat=depth):
             e = 'leaf'
